@@ -198,7 +198,7 @@ func makeField(v reflect.Value, params fieldParameters) (encoder, error) {
 		tag.constructed = false
 		tag.tagNumber = TagBitString
 		bitString := v.Interface().(BitString)
-		if uint64(len(bitString.Bytes)) != (bitString.BitLength+7)/8 {
+		if uint64(len(bitString.Bytes)) != bitString.BitLength/8+(bitString.BitLength%8+7)/8 {
 			// x.690 8.6.2: the unused-bits octet refers to the last of exactly ceil(BitLength/8) content octets
 			return nil, fmt.Errorf("ber: bit string of %d bits given in %d octets", bitString.BitLength, len(bitString.Bytes))
 		}
